@@ -88,7 +88,7 @@ PROPS = {
     'C10': dict(
         level='model_checking', design_ref='5/C10', oracle='C10',
         technique='explicit-state exploration of completion chains with queued/deferred events pending + completion-first monitor + reference-model conformance',
-        quick=[S('compl', ops=['start', 'stop', 'pe:1', 'pe:2', 'pe:3', 'pe:4', 'eq:4', 'eq:1', 'xq'], qbound=2),
+        quick=[S('compl', ops=['start', 'stop', 'pe:1', 'pe:2', 'pe:3', 'pe:4', 'eq:4', 'eq:1', 'xq', 'xs'], qbound=2),
                S('compl', ops=['start', 'pe:1', 'pe:2', 'pe:3', 'pe:4', 'eq:1'], qbound=2, submits=1, guards=2)],
         thorough=[S('compl', ops=['start', 'stop', 'pe:1', 'pe:2', 'pe:3', 'pe:4', 'eq:4', 'eq:1', 'eq:2', 'xq', 'xs'], qbound=3),
                   S('compl', ops=['start', 'pe:1', 'pe:2', 'pe:3', 'pe:4', 'eq:1'], qbound=2, submits=2, guards=3)],
@@ -98,7 +98,7 @@ PROPS = {
     'C11': dict(
         level='model_checking', design_ref='5/C11', oracle='C11',
         technique='explicit-state exploration of terminate/interrupt states with pending queued and deferred events + blocking monitor + reference-model conformance',
-        quick=[S('block', ops=['start', 'stop', 'pe:1', 'pe:2', 'pe:3', 'pe:4', 'pe:5', 'pe:6', 'eq:4', 'eq:1', 'xq'], qbound=2)],
+        quick=[S('block', ops=['start', 'stop', 'pe:1', 'pe:2', 'pe:3', 'pe:4', 'pe:5', 'pe:6', 'eq:4', 'eq:1', 'eq:5', 'xq'], qbound=2)],
         thorough=[S('block', ops=['start', 'stop', 'pe:1', 'pe:2', 'pe:3', 'pe:4', 'pe:5', 'pe:6', 'eq:4', 'eq:1', 'eq:5', 'xq', 'xs'], qbound=3),
                   S('block', ops=['start', 'pe:1', 'pe:2', 'pe:3', 'pe:4', 'pe:5', 'pe:6'], qbound=2, submits=1, guards=1)],
         rule='all histories over every event (incl. both end-interrupt events) with queued and deferred events pending when the blocking state is '
